@@ -863,17 +863,26 @@ fn stream_case(c: &mut Ctx, fam: &str, idx: u64) {
 /// A listener whose handshake can fail (as a TLS acceptor's does): `None` is a connection that
 /// was accepted but whose stream never materialises.
 struct ChurnListener {
-    rx: Mutex<mpsc::UnboundedReceiver<(Option<DuplexStream>, SocketAddr)>>,
+    rx: Mutex<mpsc::UnboundedReceiver<(Handshake, SocketAddr)>>,
+}
+
+/// How the handshake of an accepted connection goes.
+enum Handshake {
+    Done(DuplexStream),
+    Fails,
+    /// the peer connected and never completes it
+    Stalls,
 }
 
 impl AsyncAccept for ChurnListener {
     type Error = io::Error;
     type StreamType = DuplexStream;
-    type Future = Ready<Result<DuplexStream, io::Error>>;
+    type Future = Pin<Box<dyn Future<Output = Result<DuplexStream, io::Error>> + Send>>;
     fn poll_accept(&self, cx: &mut Context<'_>) -> Poll<io::Result<(Self::Future, SocketAddr)>> {
         match self.rx.lock().unwrap().poll_recv(cx) {
-            Poll::Ready(Some((Some(s), a))) => Poll::Ready(Ok((ready(Ok(s)), a))),
-            Poll::Ready(Some((None, a))) => Poll::Ready(Ok((ready(Err(io::Error::new(io::ErrorKind::ConnectionAborted, "handshake failed"))), a))),
+            Poll::Ready(Some((Handshake::Done(s), a))) => Poll::Ready(Ok((Box::pin(ready(Ok(s))), a))),
+            Poll::Ready(Some((Handshake::Fails, a))) => Poll::Ready(Ok((Box::pin(ready(Err(io::Error::new(io::ErrorKind::ConnectionAborted, "handshake failed")))), a))),
+            Poll::Ready(Some((Handshake::Stalls, a))) => Poll::Ready(Ok((Box::pin(std::future::pending()), a))),
             Poll::Ready(None) => Poll::Pending,
             Poll::Pending => Poll::Pending,
         }
@@ -889,7 +898,12 @@ fn churn_case(c: &mut Ctx, fam: &str, idx: u64) {
     let limit = rng.range(2, 5);
     let rounds = limit * 2 + rng.range(1, 6);
     // kinds: 0 served, 1 aborted mid-request, 2 hostile octets, 3 failed handshake, 4 left idle until the server closes it, 5 closed without a word
-    let kinds: Vec<usize> = (0..rounds).map(|_| *rng.pick(&[0usize, 0, 1, 2, 3, 3, 4, 5])).collect();
+    let mut kinds: Vec<usize> = (0..rounds).map(|_| *rng.pick(&[0usize, 0, 1, 2, 3, 3, 4, 5])).collect();
+    // 6: a peer that connects and never completes the handshake (one per case: it may keep its place, nobody else's)
+    if rng.chance(1, 2) {
+        let p = rng.below(kinds.len());
+        kinds[p] = 6;
+    }
     let ex = json!({"max_concurrent_connections": limit, "connections": kinds});
     let rt = tokio::runtime::Builder::new_current_thread().enable_all().start_paused(true).build().unwrap();
     let kinds2 = kinds.clone();
@@ -911,14 +925,14 @@ fn churn_case(c: &mut Ctx, fam: &str, idx: u64) {
             let mut outs: Vec<(usize, usize, bool)> = Vec::new();
             for (i, k) in kinds2.iter().chain(std::iter::once(&0usize)).enumerate() {
                 let addr: SocketAddr = format!("203.0.113.{}:{}", 1 + (i % 200), 41000 + i).parse().unwrap();
-                if *k == 3 {
-                    let _ = tx.send((None, addr));
+                if *k == 3 || *k == 6 {
+                    let _ = tx.send((if *k == 3 { Handshake::Fails } else { Handshake::Stalls }, addr));
                     tokio::time::sleep(Duration::from_millis(20)).await;
-                    outs.push((3, 0, false));
+                    outs.push((*k, 0, false));
                     continue;
                 }
                 let (mut client, server) = tokio::io::duplex(1 << 16);
-                let _ = tx.send((Some(server), addr));
+                let _ = tx.send((Handshake::Done(server), addr));
                 let r = mk_req(rng.u16(), "s3", 5000 + i, None);
                 let mut frame = (r.wire.len() as u16).to_be_bytes().to_vec();
                 frame.extend_from_slice(&r.wire);
@@ -1000,14 +1014,14 @@ fn churn_case(c: &mut Ctx, fam: &str, idx: u64) {
     for (i, (k, got, _eof)) in outs.iter().enumerate() {
         if matches!(*k, 0 | 4) && *got != 1 {
             // which kinds of endings came before it
-            let mut before: Vec<&str> = outs[..i].iter().map(|o| ["served", "aborted", "hostile", "failed-handshake", "idled-out", "closed-silently"][o.0]).collect();
+            let mut before: Vec<&str> = outs[..i].iter().map(|o| ["served", "aborted", "hostile", "failed-handshake", "idled-out", "closed-silently", "handshake-never-completes"][o.0]).collect();
             before.sort();
             before.dedup();
             let sig = if i == last { "stream-churn:probe-unanswered" } else { "stream-churn:request-unanswered" };
             c.violation(sig, &format!("connection {} of a sequence in which never more than one connection is open at a time got {} responses to its one request; the server allows {} concurrent connections; earlier connections ended as: {:?}", i, got, limit, before), c.replay_of(fam, idx, ex.clone()));
             return;
         }
-        c.count(&format!("churn_connections:{}", ["served", "aborted", "hostile", "failed-handshake", "idled-out", "closed-silently"][*k]), 1);
+        c.count(&format!("churn_connections:{}", ["served", "aborted", "hostile", "failed-handshake", "idled-out", "closed-silently", "handshake-never-completes"][*k]), 1);
     }
     c.eval(&("churn", limit, kinds.iter().fold(0u32, |a, k| a | 1 << k), rounds));
     c.count("churn_cases", 1);
